@@ -178,6 +178,9 @@ func propC14(c *Ctx, r *Report) {
 	r.Clauses = append(r.Clauses, "converted override values (E17): every store into the table of resolved override values ([]float64 sized by the module's overrides) takes its value from a call that receives the override's declared type, so overrides and initialisers that depend on an override see its value converted to its type")
 	c.runOverrideConverted(r, "override.converted")
 	r.floor("override.converted", 1)
+	r.Clauses = append(r.Clauses, writebackClause)
+	c.runCopyWriteback(r, "copy.writeback", inPkgs("ir", "msl", "glsl", "hlsl", "spirv"))
+	r.floor("copy.writeback", 30)
 	r.Clauses = append(r.Clauses, signExtClause+" - here: conversion of supplied pipeline-constant values and literals into ScalarValues")
 	c.runSignExt(r, "conv.signext", inPkgs("msl", "ir", "glsl", "hlsl", "spirv"))
 	r.floor("conv.signext", 3)
@@ -204,6 +207,12 @@ func propC13(c *Ctx, r *Report) {
 	r.Clauses = append(r.Clauses, "per-arm state (E16): inside a loop over the arms of a branching statement a pass never assigns a loop-invariant map itself to its map-typed state field (only a copy, nil, make or a literal), so arms do not share one map")
 	c.runLoopStateAlias(r, "alias.loopstate", inPkgs("ir", "dxil/internal/passes"))
 	r.floor("alias.loopstate.copysites", 1)
+	r.Clauses = append(r.Clauses, writebackClause)
+	c.runCopyWriteback(r, "copy.writeback", inPkgs("ir", "dxil/internal/passes", "wgsl"))
+	r.floor("copy.writeback", 30)
+	r.Clauses = append(r.Clauses, "block predicates (E36): a self-recursive boolean predicate over blocks that ends with `return true` (universal) answers false for an if statement unless both arms satisfy it, one that ends with `return false` (existential) answers true if either arm does - decided by evaluating the clause's combination of the two recursive calls over the four truth assignments")
+	c.runBlockPredQuantifier(r, "blockpred.quantifier", inPkgs("ir", "dxil"))
+	r.floor("blockpred.quantifier", 4)
 	r.Clauses = append(r.Clauses, orderClause+" - here: the passes of package ir and dxil/internal/passes")
 	c.runOperandOrder(r, "order.ir", inPkgs("ir", "dxil/internal/passes"))
 	r.floor("order.ir", orderFloors["ir"])
